@@ -87,7 +87,7 @@ var (
 
 const (
 	nImportKeys = 4
-	nOwnKeys    = 6
+	nOwnKeys    = 12
 	tabDepth    = 24
 	maxNames    = 9
 )
